@@ -503,6 +503,8 @@ def _repro(case_item):
 def _symptom(s, case, obs, baseline):
     b = case["backend"]
     w, eff = reference_effective(case["assign"])
+    if w is not None and obs == baseline:
+        return "value ignored (behaves as if unset)"
     if obs.startswith("panic"):
         return obs
     if w is not None and s.kind != "bool" and obs == s.model(b, '"%s"' % eff):
@@ -511,8 +513,6 @@ def _symptom(s, case, obs, baseline):
         for sl, v in sorted(case["assign"].items()):
             if sl != w and obs == s.model(b, v):
                 return "precedence: %s wins over %s" % (_slot_descr(s, case, sl), _slot_descr(s, case, w) if w else "nothing for this backend")
-    if w is not None and obs == baseline:
-        return "value ignored (behaves as if unset)"
     if w is None:
         return "a key scoped to another backend changed the output"
     if s.kind == "str":
@@ -625,9 +625,15 @@ def run(tier):
     # determinism: every failing input once more
     uniq = OrderedDict((sha(json.dumps(c["item"], sort_keys=True)), c) for c in fails)
     again = runner.rerun([c["item"] for c in uniq.values()])
-    for c, r in zip(uniq.values(), again):
+    flaky = OrderedDict()
+    for (k, c), r in zip(uniq.items(), again):
         if r["obs"] != c["obs"]:
-            raise MachineryError("non-deterministic outcome for %s: %r then %r" % (c["item"][1:], c["obs"], r["obs"]))
+            flaky[k] = {"backend": c["backend"], "config_toml": c["item"][3], "cli": c["item"][4],
+                        "attrs": c["item"][2].split("#[diplomat::bridge]")[0], "first": c["obs"], "second": r["obs"]}
+    if flaky:
+        # not reported as violations (protocol: only identically failing cases are); if nothing else fails the run is exit 2
+        print("C17: %d failing inputs did not fail identically when re-run; not reported as violations" % len(flaky))
+        fails = [c for c in fails if sha(json.dumps(c["item"], sort_keys=True)) not in flaky]
 
     # minimal failing lattice points (no proper sub-assignment with the same spellings fails)
     failing_sigs = set(_sig(SETTINGS[c["setting"]], c) for c in fails)
@@ -643,7 +649,8 @@ def run(tier):
         if sub_fails and not sym.startswith("precedence:"):
             explained += 1
             continue
-        descr = "+".join(sorted(_slot_descr(s, c, sl) for sl in slots))
+        # a precedence inversion is identified by the pair (who won, who should have) alone, whatever else is present
+        descr = "*" if sym.startswith("precedence:") else "+".join(sorted(_slot_descr(s, c, sl) for sl in slots))
         groups[(c["setting"], descr, sym)].append(c)
 
     enumerated_fsp = {n: set(c["fsp"] for c in all_cases if c["setting"] == n and c["fsp"]) for n in names}
@@ -682,6 +689,9 @@ def run(tier):
         rep.violation(key, witness, what)
         summary.append({"key": key, "minimal_points": len(cs), "example": what})
 
+    if flaky and not rep.violations:
+        raise MachineryError("non-deterministic outcomes only, e.g. %s" % json.dumps(list(flaky.values())[0]))
+
     unspecified = _run_unspecified(runner)
 
     samples = []
@@ -710,7 +720,8 @@ def run(tier):
         "lattice_points": len(all_cases),
         "failing_points": len(fails),
         "failing_points_explained_by_a_smaller_failing_point": explained,
-        "failing_inputs_rerun_identically": len(uniq),
+        "failing_inputs_rerun_identically": len(uniq) - len(flaky),
+        "failing_inputs_not_reproduced_identically": list(flaky.values())[:5],
         "bound": {"settings": per_setting, "sources": list(SOURCES),
                   "scopes": "shared key / key scoped to this backend / key scoped to another backend (kotlin, or nanobind for kotlin), all 2^9 "
                             "subsets for lib_name and unsafe_references_in_callbacks; all 2^3 subsets for backend-specific keys",
